@@ -13,6 +13,11 @@ CLAIMS = {
    text="Structural necessary conditions of C03 decided statically: every range over a Go map (59 sites) is classified; every slice filled in map order crosses a sort on every CFG path before a public API returns it or it is embedded in a result (internal collectors move the obligation to all callers); every comparator (3 Less methods, 8 sort closures) is proved a strict weak order by enumerating all weak orderings of three abstract elements per key; no ambient nondeterminism source is called; no package-level or decoder-level state is written after construction.",
    note="Does not decide tie-freedom of sort keys on real data, nor the cross-type order of JSON blocks returned by hcl; trusts go/types+go/cfg, the stated hclsyntax disjoint-range assumption for first-match returns, and that third-party callees are deterministic.",
    ref="DESIGN.md §2 E2, §3 C03"),
+ "C01": dict(
+   technique="static analysis: guard-completeness of five panic families over every function (go/cfg dominance + path search, alias-aware access paths, Fourier-Motzkin bounds prover, inter-procedural preconditions and summaries)",
+   text="Structural necessary conditions of the no-panic clause of C01, decided for every function of the module: P1 every panicking cty.Value/cty.Type accessor is dominated by a kind guard (plus non-null and known guards for configuration-evaluated values); P2/P3 every index and slice expression is proved in bounds by a linear-arithmetic prover over dominating facts, loop facts, local definitions and stated parser/cursor axioms; P4 every single-value type assertion has a dominating type test or a re-checked pairing premise (walker/validator kind pairing, no typed nil); P5 every dereference of an optional reference is reached only through a non-nil-establishing edge on every CFG path. Unproved uses of parameters become preconditions discharged at all in-module call sites.",
+   note="Does not decide: termination (recursion measures, loop progress), integer overflow, panics inside hcl/cty beyond the modelled accessor contracts, stack depth, user hooks/validators. Assumes schema-owned cty values are known and non-null, schema collections hold no nil entries, parser ranges lie within the file, cursor within file (entry check).",
+   ref="DESIGN.md §2 E4, §3 C01"),
 }
 NA = {}
 ALL = ["C%02d" % i for i in range(1, 21)]
